@@ -179,6 +179,12 @@ def b_scenarios():
                     for rebuild in (False, True):
                         out.append({'layer': 'b', 'searcher': searcher, 'main': main, 'pyc': pyc, 'distract': distract, 'rebuild': rebuild,
                                     'name': 'AAA-MIB', 'skew': 0})
+    # times past 2**31 seconds (19 January 2038): still representable in the 32-bit field of a byte-code header
+    for searcher in ('any', 'py', 'pkg'):
+        for main in MAIN:
+            for pyc in (PYC[:4] if searcher != 'any' else ['none']):
+                out.append({'layer': 'b', 'searcher': searcher, 'main': main, 'pyc': pyc, 'distract': False, 'rebuild': False, 'name': 'AAA-MIB', 'skew': 0,
+                            't0': 2 ** 31 + 86400 * 400})
     # byte-code left in __pycache__ by an earlier import is not a transformed copy of the module: with the .py gone or
     # stale the answer is "not up to date" whatever that cache entry says
     for searcher in ('py', 'pkg'):
@@ -194,7 +200,7 @@ def b_scenarios():
     return out
 
 
-def _pyc_bytes(dt, kind):
+def _pyc_bytes(dt, kind, T0=T0):
     magic = importlib.util.MAGIC_NUMBER
     if kind == 'badmagic':
         magic = b'\x00\x00\r\n'
@@ -208,6 +214,7 @@ def _pyc_bytes(dt, kind):
 
 
 def _populate_b(scn, d):
+    T0 = scn.get('t0', globals()['T0'])        # base time of the scenario (one world in three lives after 2038-01-19)
     name = scn['name']
     ext = '.json' if scn['searcher'] == 'any' else '.py'
     skew = scn.get('skew', 0)
@@ -229,7 +236,7 @@ def _populate_b(scn, d):
             os.makedirs(os.path.join(d, '__pycache__'), exist_ok=True)
             p = os.path.join(d, '__pycache__', '%s.%s.pyc' % (name, _sys.implementation.cache_tag))
             with open(p, 'wb') as f:
-                f.write(_pyc_bytes(1 if scn['pycache'] == 'fresh' else -1, 'pyc+1'))
+                f.write(_pyc_bytes(1 if scn['pycache'] == 'fresh' else -1, 'pyc+1', T0))
             os.utime(p, (T0 + 1000, T0 + 1000))
         m = scn['main']
         if m.startswith('file'):
@@ -244,7 +251,7 @@ def _populate_b(scn, d):
         if k != 'none':
             p = os.path.join(d, name + '.pyc')
             with open(p, 'wb') as f:
-                f.write(_pyc_bytes({'pyc-1': -1, 'pyc0': 0, 'pyc+1': 1}.get(k, 0), k))
+                f.write(_pyc_bytes({'pyc-1': -1, 'pyc0': 0, 'pyc+1': 1}.get(k, 0), k, T0))
             os.utime(p, (T0 + 1000, T0 + 1000))   # the file's own mtime must not matter
         if scn['distract']:
             for fn in (name + '.txt', name, 'BBB-MIB' + ext, name.lower() + ext, name + ext + '.bak', 'X' + name + ext, name + '.pyo', name[:-1] + ext):
@@ -326,6 +333,7 @@ _pkgn = [0]
 
 
 def run_b(scn):
+    T0 = scn.get('t0', globals()['T0'])
     from pysmi import error
     from pysmi.searcher import AnyFileSearcher, PyFileSearcher, PyPackageSearcher
     root = core.new_root('c10b')
